@@ -2,13 +2,20 @@
 
 PROVED (coq/Properties_C05.v): capacity arithmetic of loc/cmd/arg[EXLEN] (ex_loc, ex_cmd, ex_arg, the
 guard and loop of ex_exec), ibuf/icmd (term_push, term_read, term_cmd), ex_region / ex_lineno,
-tok/opt/pls[EXLEN] (cutword, ec_set, ex_plus) on models with checked reads and writes.
+tok/opt/pls[EXLEN] (cutword, ec_set, ex_plus), the small tables (CapDefs2.v) and the stack buffers of the
+insert-mode helpers -- char tag[] of vi_help (^A), char ai[] of led_input (CapDefs3.v) -- on models with checked
+reads and writes.
 TIE: harness/probe_exparse.c (#includes ex.c and term.c; heap blocks of exactly EXLEN / strlen+1
 bytes; plain and ASan/UBSan builds) versus the extracted model on exhaustive short command lines
 over the alphabet of address characters, command letters and delimiters, random lines up to and
 beyond EXLEN with multi-byte text, address strings, and queue operation sequences.
+harness/probe_help.c (#includes vi.c; tag_find renamed so that the word copied into tag[] is observed; led_input
+driven through the input queue) versus the model on words of every length around the buffer size made of one- to
+four-byte characters, and on ^T / ^D / indentation sequences.
 EXPLORED (not proof): grammar-based command streams (tools/gen_c05.py) for `vi -s -e` and `vi -v`
-on the ASan/UBSan build; oracle: no sanitizer report, exit status 0, quit reached in time.
+on the ASan/UBSan build -- general streams, insert-mode helper keys after long words, :g / :v commands that
+replace one line by several (bounded time: a hang detector); oracle: no sanitizer report, exit status 0,
+quit reached in time.
 """
 import itertools, json, os, re, glob
 import vlib
@@ -29,6 +36,9 @@ def consts():
     src = open(os.path.join(vlib.COQ, 'GenConsts.v')).read()
     d = {}
     for k in ('EXLEN', 'IBUFSZ', 'ICMDSZ'):
+        d[k] = int(re.search(r'Definition %s : Z := (\d+)%%Z' % k, src).group(1))
+    src = open(os.path.join(vlib.COQ, 'GenCap.v')).read()
+    for k in ('TAGSZ', 'AISZ'):
         d[k] = int(re.search(r'Definition %s : Z := (\d+)%%Z' % k, src).group(1))
     return d
 
@@ -213,6 +223,36 @@ def canon(req, ans):
     return ans.strip()
 
 
+def run_probe(res, exe, what, todo, env, decode=None):
+    """Runs a probe over the requests; a crash loses the rest, so restart after the crashing one (which is re-run
+    alone before it is reported)."""
+    out = []
+    i = 0
+    crashes = 0
+    while i < len(todo):
+        rc, o, err = vlib.run_lines(exe, todo[i:], timeout=1500, env=env)
+        o = o[:len(todo) - i]
+        out += o
+        i += len(o)
+        if rc != 0 and i < len(todo):
+            bad = todo[i]
+            # confirm alone
+            rc2, o2, err2 = vlib.run_lines(exe, [bad], timeout=300, env=env)
+            if rc2 != 0:
+                res.violation({'what': '%s: %s' % (what, signature(err2.encode()) or 'exit status %d' % rc2), 'input': [bad],
+                               'decoded': (decode(bad) if decode else repr(vlib.unhx(bad.split(' ')[-1]))[:300] if bad.split(' ')[0] != 'term' else bad[:300]),
+                               'expected': 'no sanitizer report, exit status 0', 'observed': err2[-2500:]})
+            out.append('CRASH')
+            i += 1
+            crashes += 1
+            if crashes > 8:
+                out += ['SKIPPED'] * (len(todo) - i)
+                break
+        elif rc != 0:
+            break
+    return out
+
+
 def run_probe_part(ctx, K):
     res = ctx.res
     probe = vlib.build_probe('exparse', includes=['ex', 'term'])
@@ -228,32 +268,7 @@ def run_probe_part(ctx, K):
     env = dict(os.environ, ASAN_OPTIONS='detect_leaks=0:exitcode=101', UBSAN_OPTIONS='halt_on_error=1:exitcode=102:print_stacktrace=1')
 
     def runit(exe, what, todo):
-        """Runs the probe over the requests; a crash loses the rest, so restart after the crashing one."""
-        out = []
-        i = 0
-        crashes = 0
-        while i < len(todo):
-            rc, o, err = vlib.run_lines(exe, todo[i:], timeout=1500, env=env)
-            o = o[:len(todo) - i]
-            out += o
-            i += len(o)
-            if rc != 0 and i < len(todo):
-                bad = todo[i]
-                # confirm alone
-                rc2, o2, err2 = vlib.run_lines(exe, [bad], timeout=300, env=env)
-                if rc2 != 0:
-                    res.violation({'what': '%s: %s' % (what, signature(err2.encode()) or 'exit status %d' % rc2), 'input': [bad],
-                                   'decoded': repr(vlib.unhx(bad.split(' ')[-1]))[:300] if bad.split(' ')[0] != 'term' else bad[:300],
-                                   'expected': 'no sanitizer report, exit status 0', 'observed': err2[-2500:]})
-                out.append('CRASH')
-                i += 1
-                crashes += 1
-                if crashes > 8:
-                    out += ['SKIPPED'] * (len(todo) - i)
-                    break
-            elif rc != 0:
-                break
-        return out
+        return run_probe(res, exe, what, todo, env)
 
     out_c = runit(probe, 'probe_exparse', reqs)
     out_a = runit(probe_asan, 'probe_exparse (ASan/UBSan)', reqs)
@@ -298,6 +313,192 @@ def run_probe_part(ctx, K):
 
 
 # ---------------------------------------------------------------------------------------------
+# the stack buffers of the insert-mode helpers: probe_help.c versus the model (CapDefs3.v)
+
+PROBE_ENV = dict(os.environ, ASAN_OPTIONS='detect_leaks=0:exitcode=101', UBSAN_OPTIONS='halt_on_error=1:exitcode=102:print_stacktrace=1')
+
+
+def help_requests(ctx, K):
+    """`help <hex of the text before the cursor>`: a sweep of word lengths around the size of tag[] for one- to
+    four-byte characters (by bytes and by characters, with and without text in front of / behind the word), then
+    generated lines, then arbitrary strings of non-NUL bytes (the theorem does not assume valid UTF-8)."""
+    r = ctx.rng.fork('help')
+    T = K['TAGSZ']
+    reqs = []
+    for c in ('a', 'é', '中', '\U0001d11e', 'ا'):
+        cb = c.encode('utf-8')
+        words = []
+        for nb in list(range(T - 4, T + 5)) + [2 * T - 1, 2 * T, 3 * T, 4 * T - 3, 4 * T + 1]:
+            words.append(cb * (nb // len(cb)) + b'a' * (nb % len(cb)))
+            words.append(b'a' * (nb % len(cb)) + cb * (nb // len(cb)))
+        for nc in (T - 2, T - 1, T, T + 1):
+            words.append(cb * nc)
+        for w in words:
+            for pre in (b'', b'ab (', '日本 '.encode('utf-8')):
+                for post in (b'', b' ', b'.'):
+                    reqs.append('help ' + vlib.hx(pre + w + post))
+    for _ in range(600 if ctx.quick else 6000):
+        reqs.append('help ' + vlib.hx(G.helper_text(r)))
+    for _ in range(150 if ctx.quick else 1500):
+        n = r.choice([0, 1, 2, 5, 40, T - 2, T - 1, T, T + 1, 2 * T, 300])
+        pool = r.choice([[0x61, 0x20, 0xc3, 0xa9, 0x80, 0xf0, 0x9f, 0x5f, 0x2e], list(range(1, 256)), [0xe4, 0xb8, 0xad, 0x41], [0xf0, 0x9d, 0x84, 0x9e, 0xbf]])
+        reqs.append('help ' + vlib.hx(bytes(r.choice(pool) for _ in range(n))))
+    return list(dict.fromkeys(reqs))
+
+
+def ai_case(r, K):
+    """One session of led_input: k leading blanks in the prefix (+ 'x'), then lines of ^T / ^D, typed blanks and
+    an optional letter.  Returns (probe request, model request, meta)."""
+    A = K['AISZ']
+    near = [0, 1, 2, 5, A - 2, A - 1, A, A + 2, 200]
+    k = r.choice(near)
+    rest = r.below(3) == 0
+    xai = r.below(4) != 0
+    n0 = min(k, A - 1)
+    lines = []
+    keys = b''
+    for i in range(r.choice([1, 2, 3, 5])):
+        td = ''
+        for _ in range(r.choice([0, 1, 1, 2])):
+            td += r.choice(['t', 'd']) * r.choice([1, 2, 5, A - 2, A - 1, A, A + 2])
+        sp = r.choice(near) if r.chance(1, 2) else r.choice([0, 1, 2, 4])
+        has = r.below(5) != 0
+        lines.append((td, sp, has))
+    # the input queue holds 4096 bytes: shorten until the keys fit
+    def keys_of(ls):
+        b = b''
+        for i, (td, sp, has) in enumerate(ls):
+            b += td.replace('t', '\x14').replace('d', '\x04').encode() + b' ' * sp + (b'a' if has else b'') + (b'\n' if i + 1 < len(ls) else b'\x1b')
+        return b
+    while len(keys_of(lines)) > 3900:
+        lines.pop()
+    keys = keys_of(lines)
+    ops = []
+    for i, (td, sp, has) in enumerate(lines):
+        ops += list(td)
+        pe = (k - n0 == 0 and not rest) if i == 0 else True
+        ops.append('l%d:%d:%d' % (sp, 1 if pe else 0, 1 if xai else 0))
+    return ('ai %d %d %d %s' % (1 if xai else 0, k, 1 if rest else 0, vlib.hx(keys)), 'ai %d %s' % (k, ' '.join(ops)),
+            {'k': k, 'rest': rest, 'xai': xai, 'n0': n0, 'lines': lines})
+
+
+def ai_expected(meta, lens):
+    """The text led_input returns (tabs written as blanks), from strlen(ai) after the fill and after every operation."""
+    if not lens or lens[0] != meta['n0']:
+        return None
+    pos = 1
+    cur = lens[0]
+    out = []
+    for i, (td, sp, has) in enumerate(meta['lines']):
+        for _ in td:
+            cur = lens[pos]
+            pos += 1
+        prefrest = (' ' * (meta['k'] - meta['n0']) + ('x' if meta['rest'] else '')) if i == 0 else ''
+        appended = has or prefrest != ''
+        out.append((' ' * cur if appended else '') + prefrest + ' ' * sp + ('a' if has else ''))
+        cur = lens[pos]
+        pos += 1
+    return '\n'.join(out)
+
+
+def decode_help(q):
+    w = q.split(' ')
+    return repr(vlib.unhx(w[-1]))[:400] if w[0] == 'help' else q[:300]
+
+
+def run_help_part(ctx, K):
+    res = ctx.res
+    probe = vlib.build_probe('help', includes=['vi', 'term'])
+    probe_asan = vlib.build_probe('help', includes=['vi', 'term'], asan=True)
+    model = ctx.model('cap')
+    T, A = K['TAGSZ'], K['AISZ']
+    if ctx.replay:
+        rp = json.load(open(ctx.replay))
+        reqs = [x for x in rp.get('input', []) if isinstance(x, str) and x.split(' ')[0] == 'help']
+        ais = []
+        if not reqs:
+            return
+    else:
+        reqs = help_requests(ctx, K)
+        r = ctx.rng.fork('ai')
+        ais = [ai_case(r.fork(str(i)), K) for i in range(300 if ctx.quick else 3000)]
+    todo = reqs + [a[0] for a in ais]
+    out_c = run_probe(res, probe, 'probe_help', todo, PROBE_ENV, decode_help)
+    out_a = run_probe(res, probe_asan, 'probe_help (ASan/UBSan)', todo, PROBE_ENV, decode_help)
+    for q, a, b in zip(todo, out_c, out_a):
+        if a != b and 'CRASH' not in (a, b) and 'SKIPPED' not in (a, b):
+            res.violation({'what': 'plain and sanitized builds answer differently (undefined behaviour)', 'input': [q], 'decoded': decode_help(q), 'expected': a[:600], 'observed': b[:600]})
+            break
+    out_m = None
+    if model:
+        rc, out_m, err = vlib.run_lines(model, reqs + [a[1] for a in ais], timeout=1500)
+        if rc != 0 or len(out_m) != len(todo):
+            res.disagree({'what': 'model driver: rc=%d, %d answers for %d requests' % (rc, len(out_m), len(todo)), 'stderr': err[-1000:]})
+            out_m = None
+    nd = 0
+    # (a) the tag word
+    for i, q in enumerate(reqs):
+        a = out_c[i] if i < len(out_c) else 'SKIPPED'
+        res.evaluations += 1
+        res.count('probe help')
+        if a in ('CRASH', 'SKIPPED'):
+            continue
+        ln = vlib.unhx(q.split(' ')[1])
+        if a.startswith('tag '):
+            tag = vlib.unhx(a.split(' ')[1])
+            # the property itself: the word and its terminator fit the buffer, and it was read from the line
+            if len(tag) + 1 > T:
+                res.violation({'what': 'vi_help copied a word of %d bytes + terminator into char tag[%d]' % (len(tag), T), 'input': [q], 'decoded': decode_help(q),
+                               'expected': 'at most %d bytes' % (T - 1), 'observed': a[:700]})
+            elif tag not in ln:
+                res.violation({'what': 'vi_help handed tag_find bytes that are not on the line (read outside it)', 'input': [q], 'decoded': decode_help(q),
+                               'expected': 'a segment of the line', 'observed': a[:700]})
+            if len(ln) >= T - 8:
+                res.nontriv(q[:120])
+        elif a != 'none':
+            res.disagree({'what': 'probe_help: unexpected answer', 'input': [q], 'implementation': a[:300]})
+        if out_m is not None and a != out_m[i].strip():
+            nd += 1
+            res.disagree({'what': 'model and implementation differ (vi_help tag word)', 'input': [q], 'decoded': decode_help(q), 'implementation': a[:700], 'model': out_m[i][:700]})
+    # (b) ai[]
+    for j, (pq, mq, meta) in enumerate(ais):
+        i = len(reqs) + j
+        a = out_c[i] if i < len(out_c) else 'SKIPPED'
+        res.evaluations += 1
+        res.count('probe ai')
+        if a in ('CRASH', 'SKIPPED'):
+            continue
+        if a in ('null', '?'):
+            res.disagree({'what': 'probe_help: led_input returned no text', 'input': [pq], 'implementation': a})
+            continue
+        got = vlib.unhx(a).decode('utf-8', 'replace').replace('\t', ' ')
+        gl = got.split('\n')
+        # the property itself: the indentation in front of what was typed never exceeds what ai[] can hold
+        for li, ((td, sp, has), g) in enumerate(zip(meta['lines'], gl)):
+            typed = (meta['k'] - meta['n0'] if li == 0 else 0) + sp
+            lead = len(g) - len(g.lstrip(' '))
+            if lead - typed > A - 1:
+                res.violation({'what': 'led_input: %d blanks of auto-indent in front of line %d, char ai[%d] holds at most %d' % (lead - typed, li + 1, A, A - 1),
+                               'input': [pq], 'expected': 'at most %d' % (A - 1), 'observed': a[:700]})
+                break
+        if any(len(td) >= A - 2 or sp >= A - 2 for td, sp, has in meta['lines']) or meta['k'] >= A - 2:
+            res.nontriv(pq[:120])
+        if out_m is not None:
+            try:
+                lens = [int(x) for x in out_m[i].split()]
+            except ValueError:
+                lens = None
+            exp = ai_expected(meta, lens) if lens else None
+            if exp is None or exp != got:
+                nd += 1
+                res.disagree({'what': 'model and implementation differ (led_input auto-indent)', 'input': [pq], 'model_request': mq, 'implementation': got[:700],
+                              'model': (exp if exp is not None else out_m[i])[:700]})
+    res.extra['help_probe_disagreements'] = nd
+    for q, a in list(zip(todo, out_c))[::max(1, len(todo) // 3)][:3]:
+        res.sample({'request': q[:200], 'answer': a[:200]})
+
+
+# ---------------------------------------------------------------------------------------------
 # the editor under sanitizers
 
 def signature(err):
@@ -338,7 +539,10 @@ def classify(exe, case, f, err):
     return None
 
 
-def run_case(exe, case, timeout=TIMEOUT):
+def run_case(exe, case, timeout=None):
+    """timeout: None = the limit of the case (TIMEOUT unless its stream sets another), a number = that limit."""
+    if timeout is None:
+        timeout = case.get('timeout', TIMEOUT)
     if case['kind'] == 'ex':
         return vlib.run_ex(exe, G.ex_bytes(case['lines']), files=case['files'], args=case.get('args', ['f.txt']), timeout=timeout)
     return vlib.run_vi(exe, G.vi_bytes(case['lines']), files=case['files'], args=case.get('args', ['f.txt']), rows=case['rows'], cols=case['cols'], timeout=timeout)
@@ -349,6 +553,10 @@ def case_json(case, sig=None):
          'files_hex': {k: v.hex() for k, v in case['files'].items()}, 'args': case.get('args', ['f.txt'])}
     if case['kind'] == 'vi':
         d['rows'], d['cols'] = case['rows'], case['cols']
+    if 'timeout' in case:
+        d['timeout'] = case['timeout']
+    if 'stream' in case:
+        d['stream'] = case['stream']
     if sig:
         d['signature'] = sig
     return d
@@ -361,32 +569,38 @@ def case_from_json(d):
         c['files'][k] = v.encode('utf-8')
     if c['kind'] == 'vi':
         c['rows'], c['cols'] = d.get('rows', 24), d.get('cols', 80)
+    if 'timeout' in d:
+        c['timeout'] = d['timeout']
+    if 'stream' in d:
+        c['stream'] = d['stream']
     return c
 
 
 def confirm(exe, case):
     """Re-run alone (serially); a timeout with a 3x limit.  Returns the failure label or None."""
-    r = run_case(exe, case, timeout=3 * TIMEOUT)
+    r = run_case(exe, case, timeout=3 * case.get('timeout', TIMEOUT))
     return failed(r)
 
 
 def report(ctx, exe, case, sig):
     res = ctx.res
+    lim = case.get('timeout', TIMEOUT)
 
     def same(lines):
         c = dict(case, lines=lines)
-        f = failed(run_case(exe, c, timeout=TIMEOUT if not sig.startswith('hang') else 2 * TIMEOUT))
+        f = failed(run_case(exe, c, timeout=lim if not sig.startswith('hang') else 2 * lim))
         return f is not None and (f == sig or (f.split(' in ')[0] == sig.split(' in ')[0]))
 
     small = vlib.shrink(case['lines'], same, max_steps=(12 if sig.startswith('hang') else 120)) if len(case['lines']) > 1 else case['lines']
     c2 = dict(case, lines=small)
-    r = run_case(exe, c2, timeout=3 * TIMEOUT)
+    r = run_case(exe, c2, timeout=3 * lim)
     f2 = failed(r)
     if f2 is None:
-        c2, r = case, run_case(exe, case, timeout=3 * TIMEOUT)
+        c2, r = case, run_case(exe, case, timeout=3 * lim)
         f2 = failed(r)
-    res.violation({'what': '%s: %s' % ('vi -s -e' if case['kind'] == 'ex' else 'vi -v', f2 or sig), 'input': case_json(c2, f2 or sig),
-                   'expected': 'no sanitizer report, exit status 0, quit reached', 'observed': (r.err or b'')[-3000:].decode('utf-8', 'replace'),
+    label = {'ex': 'vi -s -e', 'vi': 'vi -v'}[case['kind']] + (' (%s stream)' % case['stream'] if case.get('stream') else '')
+    res.violation({'what': '%s: %s' % (label, f2 or sig), 'input': case_json(c2, f2 or sig),
+                   'expected': 'no sanitizer report, exit status 0, quit reached within %d s' % (3 * lim), 'observed': (r.err or b'')[-3000:].decode('utf-8', 'replace'),
                    'replay_cmd': 'python3 tools/check.py C05 --replay <this file>'}, kf=classify(exe, c2, f2 or sig, r.err))
 
 
@@ -401,42 +615,96 @@ def arglist(r):
     return ['f.txt']
 
 
-def explore(ctx, exe, kind, n):
+GLOB_TIMEOUT = 10          # a :g over at most a dozen lines ends in milliseconds; a reproduced time-out (alone, 30 s) is a hang
+
+STREAMS = {
+    # name: (editor mode, generator, per-case limit)
+    'ex': ('ex', None, TIMEOUT),
+    'vi': ('vi', None, TIMEOUT),
+    'helper': ('vi', 'helper_stream', 30),             # insert-mode helper keys after long words (every key redraws a long line)
+    'glob': ('ex', 'glob_script', GLOB_TIMEOUT),       # :g / :v whose command replaces a line by several
+}
+
+
+def make_case(r, name):
+    kind, gen, lim = STREAMS[name]
+    if name == 'ex':
+        lines, files = G.ex_script(r)
+        return {'kind': 'ex', 'lines': lines, 'files': files, 'args': arglist(r)}
+    if name == 'vi':
+        atoms, files, rows, cols = G.vi_stream(r)
+        return {'kind': 'vi', 'lines': atoms, 'files': files, 'rows': rows, 'cols': cols, 'args': arglist(r)}
+    if name == 'helper':
+        atoms, files, rows, cols = G.helper_stream(r)
+        return {'kind': 'vi', 'lines': atoms, 'files': files, 'rows': rows, 'cols': cols, 'args': ['f.txt'], 'timeout': lim, 'stream': name}
+    lines, files = G.glob_script(r)
+    return {'kind': 'ex', 'lines': lines, 'files': files, 'args': ['f.txt'], 'timeout': lim, 'stream': name}
+
+
+def sweep_cases(K):
+    """Deterministic boundary cases of the two new streams (run on every seed, before the generated ones).
+    helper: a word of T-2 .. T+2 bytes and of T-1 .. T+1 characters (T = the size of vi_help's tag[]) of one- to
+    four-byte characters, typed and then ^A, or already on the line and then A ^A; an indentation of A-2 .. A+1 blanks
+    (A = the size of led_input's ai[]) under the ai option, then o, ^T, text.
+    glob: one line replaced by k = 1..3 lines (a filter, or c with a text block) with p = 0..2 lines still waiting
+    behind it, the last new line matching the pattern again or not."""
+    T, A = K['TAGSZ'], K['AISZ']
+    out = []
+    for c in ('a', 'é', '中', '\U0001d11e'):
+        cb = c.encode('utf-8')
+        ws = [cb * (nb // len(cb)) + b'a' * (nb % len(cb)) for nb in range(T - 2, T + 3)] + [cb * nc for nc in (T - 1, T, T + 1)] + [cb * (4 * T)]
+        for w in dict.fromkeys(ws):
+            out.append({'kind': 'vi', 'lines': [b'i' + w + b'\x01' + b'\x1b'], 'files': {}, 'rows': 24, 'cols': 80, 'args': ['f.txt'], 'stream': 'helper'})
+            out.append({'kind': 'vi', 'lines': [b'A\x01\x01 x\x1b'], 'files': {'f.txt': b'(' + w + b'\n'}, 'rows': 5, 'cols': 20, 'args': ['f.txt'], 'stream': 'helper'})
+    for n in (A - 2, A - 1, A, A + 1):
+        for unit in (b' ', b'\t'):
+            out.append({'kind': 'vi', 'lines': [b':se ai\n', b'o' + b'\x14' * 3 + b'x\n' + b'\x04\x14\x14y' + b'\x1b', b'O  z\x1b'], 'files': {'f.txt': unit * n + b'w\n'},
+                        'rows': 24, 'cols': 80, 'args': ['f.txt'], 'stream': 'helper'})
+    for k in (1, 2, 3):
+        for pend in (0, 1, 2):
+            for again in (True, False):
+                new = ['y'] * (k - 1) + ['x' if again else 'y']
+                f = ('x\n' + 'z\n' * pend).encode()
+                out.append({'kind': 'ex', 'lines': [b'se wa', ('g/x/.!' + '; '.join('echo ' + w for w in new)).encode()], 'files': {'f.txt': f}, 'args': ['f.txt'],
+                            'timeout': GLOB_TIMEOUT, 'stream': 'glob'})
+                out.append({'kind': 'ex', 'lines': [b'g/x/c'] + [w.encode() for w in new] + [b'.'], 'files': {'f.txt': f}, 'args': ['f.txt'],
+                            'timeout': GLOB_TIMEOUT, 'stream': 'glob'})
+    return out
+
+
+def explore(ctx, exe, name, n, extra=()):
     res = ctx.res
-    r0 = ctx.rng.fork('explore-' + kind)
-    cases = []
+    kind = STREAMS[name][0]
+    r0 = ctx.rng.fork('explore-' + name)
+    cases = list(extra)
     for i in range(n):
-        r = r0.fork(str(i))
-        if kind == 'ex':
-            lines, files = G.ex_script(r)
-            cases.append({'kind': 'ex', 'lines': lines, 'files': files, 'args': arglist(r)})
-        else:
-            atoms, files, rows, cols = G.vi_stream(r)
-            cases.append({'kind': 'vi', 'lines': atoms, 'files': files, 'rows': rows, 'cols': cols, 'args': arglist(r)})
+        cases.append(make_case(r0.fork(str(i)), name))
     outs = vlib.pmap(lambda c: failed(run_case(exe, c)), cases)
     seen = {}
     for c, f in zip(cases, outs):
         res.evaluations += 1
-        res.count('%s streams' % kind)
+        res.count('%s streams' % name)
         n_long = sum(1 for l in c['lines'] if len(l) >= 505)
         if n_long:
-            res.count('%s streams with a command of 505 bytes or more' % kind)
+            res.count('%s streams with a command of 505 bytes or more' % name)
         if any(b > 0x7f for l in c['lines'] for b in l) or any(b > 0x7f for v in c['files'].values() for b in v):
-            res.nontriv((kind, len(res.nontrivial)))
+            res.nontriv((name, len(res.nontrivial)))
         if kind == 'vi':
             res.count('window %dx%d' % (c['rows'], c['cols']) if c['rows'] <= 3 or c['cols'] <= 3 else 'window larger than 3x3')
+        if name == 'helper' and any(b'\x01' in l for l in c['lines']):
+            res.count('helper streams with ^A')
         if f:
             key = f if not f.startswith('hang') else 'hang'
             seen.setdefault(key, []).append(c)
     for key, cs in seen.items():
-        res.count('failing %s streams before confirmation' % kind, len(cs))
+        res.count('failing %s streams before confirmation' % name, len(cs))
         done = 0
         for c in sorted(cs, key=lambda c: sum(len(l) for l in c['lines']))[:4]:
             f = confirm(exe, c)
             if f:
-                r1 = run_case(exe, c, timeout=3 * TIMEOUT)
+                r1 = run_case(exe, c, timeout=3 * c.get('timeout', TIMEOUT))
                 kf = classify(exe, c, failed(r1), r1.err)
-                if kf and not res.violation({'what': '%s stream: %s' % (kind, f), 'input': case_json(c, f)}, kf=kf):
+                if kf and not res.violation({'what': '%s stream: %s' % (name, f), 'input': case_json(c, f)}, kf=kf):
                     done += 1
                     continue
                 report(ctx, exe, c, f)
@@ -444,8 +712,8 @@ def explore(ctx, exe, kind, n):
                 break
         if not done:
             res.count('unconfirmed failures (not reproduced alone with a 3x limit)', len(cs))
-    for c in cases[:2]:
-        res.sample({'kind': kind, 'lines': [l.decode('utf-8', 'replace')[:80] for l in c['lines'][:6]]})
+    for c in cases[len(extra):len(extra) + 2]:
+        res.sample({'kind': name, 'lines': [l.decode('utf-8', 'replace')[:80] for l in c['lines'][:6]]})
 
 
 def run_corpus(ctx, exe):
@@ -473,7 +741,7 @@ def run(ctx):
     K = consts()
     res.rule = ('probe: one request = one command line / address string / queue operation sequence through the real scanners (plain + ASan) and the model; '
                 'exhaustive lines up to length %d over a %d-symbol alphabet, random lines around %d bytes. streams: one generated ex script or vi key stream on the '
-                'ASan/UBSan editor. non-trivial = probe request longer than a few bytes, or a stream with multi-byte text; distinct = distinct request / stream'
+                'ASan/UBSan editor (general ex / vi streams, insert-mode helper keys after long words, :g commands that add lines). non-trivial = probe request longer than a few bytes, or a stream with multi-byte text; distinct = distinct request / stream'
                 % (3 if ctx.quick else 4, len(ALPHA), K['EXLEN']))
     res.extra['exploration_note'] = 'the command-stream part is exploration (testing under sanitizers), not proof'
     exe = vlib.build_vi(asan=True)
@@ -485,14 +753,19 @@ def run(ctx):
             f = confirm(exe, case)
             res.evaluations += 1
             if f:
-                r = run_case(exe, case, timeout=3 * TIMEOUT)
+                r = run_case(exe, case, timeout=3 * case.get('timeout', TIMEOUT))
                 res.violation({'what': f, 'input': case_json(case, f), 'expected': 'no sanitizer report, exit status 0, quit reached',
                                'observed': (r.err or b'')[-3000:].decode('utf-8', 'replace')})
             return
         run_probe_part(ctx, K)
+        run_help_part(ctx, K)
         return
     run_corpus(ctx, exe)
     run_probe_part(ctx, K)
+    run_help_part(ctx, K)
     n = int(os.environ.get('C05_STREAMS', '0') or 0) or (2500 if ctx.quick else 30000)
+    sweep = sweep_cases(K)
+    explore(ctx, exe, 'helper', max(1, n // 5), extra=[c for c in sweep if c['stream'] == 'helper'])
+    explore(ctx, exe, 'glob', max(1, n // 5), extra=[c for c in sweep if c['stream'] == 'glob'])
     explore(ctx, exe, 'ex', n)
     explore(ctx, exe, 'vi', n)
